@@ -25,11 +25,13 @@ import copy
 import hashlib
 import io
 import json
+import mmap
 import os
 import pickle
 import random
 import subprocess
 import sys
+import tempfile
 import time
 import traceback
 
@@ -73,7 +75,11 @@ def _tap_dump(obj, file, protocol=None, **kw):
             snap = copy.deepcopy(obj)
         except Exception:
             snap = None
-        TAP.dumped.append((snap, protocol, data))
+        try:                                   # where pickle.dump left the stream
+            end = file.tell() if pos is not None else None
+        except Exception:
+            end = None
+        TAP.dumped.append((snap, protocol, data, end))
     finally:
         TAP.active = True
 
@@ -88,7 +94,7 @@ def _tap_dumps(obj, protocol=None, **kw):
             snap = copy.deepcopy(obj)
         except Exception:
             snap = None
-        TAP.dumped.append((snap, protocol, bytes(data)))
+        TAP.dumped.append((snap, protocol, bytes(data), None))
         return data
     finally:
         TAP.active = True
@@ -379,6 +385,226 @@ def build_sampler(kind, family, seed):
 
 
 # --------------------------------------------------------------------------
+# the streams a caller may hand to the public epsie.dump_pickle_to_hdf(memfp, ...)
+# --------------------------------------------------------------------------
+# A stream descriptor is [container, fill, payload, [poskind, k]] (JSON-able):
+#   container  what kind of seekable binary stream (all of them accepted by the unchanged code)
+#   fill       how the bytes got into it: 'init' (constructed over the bytes / file opened 'rb':
+#              position 0), 'write' (one write: position at the END), 'write2' (two writes),
+#              'pickle' (pickle.dump(obj, stream, protocol): position at the END)
+#   payload    a bytes descriptor (see mk_bytes) or ['obj', label, protocol]
+#   position   where the stream is when dump_pickle_to_hdf is called:
+#              asfilled | start | end | mid k | read k (rewound, k bytes read) | loaded (rewound,
+#              one pickle.load: at the end of the pickle) | beyond k (seek past the end)
+# Streams the unchanged code refuses (not seekable, text mode: numpy.frombuffer wants bytes) are
+# legal refusals and are not cases.
+
+class _MiniStream:
+    """A file-like object that is none of the io classes: seek / read / tell, nothing else."""
+
+    def __init__(self, data, ret=bytes):
+        self._d, self._p, self._ret, self.closed = bytes(data), 0, ret, False
+
+    def seek(self, offset, whence=0):
+        base = 0 if whence == 0 else (self._p if whence == 1 else len(self._d))
+        self._p = max(0, base + offset)
+        return self._p
+
+    def tell(self):
+        return self._p
+
+    def read(self, size=-1):
+        if size is None or size < 0:
+            size = len(self._d)
+        out = self._d[self._p:self._p + size]
+        self._p += len(out)
+        return self._ret(out)
+
+    def readable(self):
+        return True
+
+    def seekable(self):
+        return True
+
+    def close(self):
+        self.closed = True
+
+
+STREAM_FILLS = {                                        # container -> fills it supports
+    'bytesio': ('init', 'write', 'write2', 'pickle'),
+    'tmpfile': ('write', 'write2', 'pickle'),           # tempfile.TemporaryFile('w+b'), a real file
+    'rawfile': ('write', 'write2'),                     # the same, unbuffered (io.FileIO)
+    'appendfile': ('write', 'write2'),                  # a real file opened 'a+b'
+    'spooled': ('write', 'write2', 'pickle'),           # tempfile.SpooledTemporaryFile, still in memory
+    'spooled-rolled': ('write', 'write2', 'pickle'),    # ... rolled over to a real file
+    'bufrandom': ('write', 'write2', 'pickle'),         # io.BufferedRandom over a BytesIO
+    'bufreader': ('init',),                             # io.BufferedReader over a BytesIO (read only)
+    'rbfile': ('init',),                                # a real file holding the bytes, opened 'rb'
+    'mmap': ('write',),                                 # anonymous mmap (non-empty payloads only)
+    'mini': ('init',),                                  # not an io class: seek/read/tell only
+    'mini-bytearray': ('init',),                        # ... whose read() returns a bytearray
+}
+STREAM_CONTAINERS = sorted(STREAM_FILLS)
+STREAM_POSITIONS = ('asfilled', 'start', 'end', 'mid', 'read', 'loaded', 'beyond')
+
+
+def stream_legal(container, fill, payload_is_obj, n, poskind):
+    """Combinations the harness can build (not a statement about the code under test)."""
+    if fill not in STREAM_FILLS[container]:
+        return False
+    if fill == 'pickle' and not payload_is_obj:
+        return False
+    if container == 'mmap' and (n == 0 or poskind == 'beyond'):
+        return False                                    # mmap: no empty maps, no seek past the end
+    if poskind == 'loaded' and (not payload_is_obj or container.startswith('mini')):
+        return False                                    # pickle.load needs readline()
+    return True
+
+
+def payload_bytes(payload, cat):
+    """(bytes, object or None) of a payload descriptor."""
+    if payload[0] == 'obj':
+        obj = cat[payload[1]]
+        return _ORIG['dumps'](obj, payload[2]), obj
+    return mk_bytes(payload), None
+
+
+def make_stream(sdesc, cat):
+    """Build the stream of a descriptor.  Returns (stream, bytes it holds, object or None)."""
+    container, fill, payload, (poskind, k) = sdesc
+    data, obj = payload_bytes(payload, cat)
+    n = len(data)
+    if not stream_legal(container, fill, payload[0] == 'obj', n, poskind):
+        raise ValueError('stream descriptor the harness cannot build: %r' % (sdesc,))
+    if container == 'bytesio':
+        s = io.BytesIO(data) if fill == 'init' else io.BytesIO()
+    elif container == 'tmpfile':
+        s = tempfile.TemporaryFile('w+b')
+    elif container == 'rawfile':
+        s = tempfile.TemporaryFile('w+b', buffering=0)
+    elif container == 'appendfile':
+        fd, name = tempfile.mkstemp(prefix='c20_')
+        os.close(fd)
+        s = open(name, 'a+b')
+        os.unlink(name)
+    elif container == 'spooled':
+        s = tempfile.SpooledTemporaryFile(max_size=1 << 30)
+    elif container == 'spooled-rolled':
+        s = tempfile.SpooledTemporaryFile(max_size=1 << 30)
+    elif container == 'bufrandom':
+        s = io.BufferedRandom(io.BytesIO())
+    elif container == 'bufreader':
+        s = io.BufferedReader(io.BytesIO(data))
+    elif container == 'rbfile':
+        fd, name = tempfile.mkstemp(prefix='c20_')
+        os.write(fd, data)
+        os.close(fd)
+        s = open(name, 'rb')
+        os.unlink(name)
+    elif container == 'mmap':
+        s = mmap.mmap(-1, n)
+    elif container == 'mini':
+        s = _MiniStream(data)
+    elif container == 'mini-bytearray':
+        s = _MiniStream(data, bytearray)
+    else:
+        raise ValueError(sdesc)
+    if fill == 'write':
+        s.write(data)
+    elif fill == 'write2':
+        cut = n // 3
+        s.write(data[:cut])
+        s.write(data[cut:])
+    elif fill == 'pickle':
+        _ORIG['dump'](obj, s, payload[2])
+    if container == 'spooled-rolled':
+        s.rollover()
+    if poskind == 'start':
+        s.seek(0)
+    elif poskind == 'end':
+        s.seek(0, 2)
+    elif poskind == 'mid':
+        s.seek(k % (n + 1))
+    elif poskind == 'read':
+        s.seek(0)
+        s.read(k % (n + 1))
+    elif poskind == 'loaded':
+        s.seek(0)
+        _ORIG['load'](s)
+    elif poskind == 'beyond':
+        s.seek(n + 1 + k % 40)
+    return s, data, obj
+
+
+def stream_content(s, container, n):
+    """Everything the stream holds (read by the harness after the call under test)."""
+    s.seek(0)
+    return bytes(s.read(n) if container == 'mmap' else s.read())
+
+
+# --------------------------------------------------------------------------
+# call styles: every way a caller may spell the arguments of an entry point
+# --------------------------------------------------------------------------
+#   kw     leading arguments positional, the optional ones by keyword (what the older cases do)
+#   pos    everything positional, in the documented order
+#   min    optional arguments that have their default value are left out (exercises the defaults)
+#   allkw  every argument by its documented name
+#   mixed  the first optional argument positional, the rest by keyword
+#   alias  through the other public name of the same function: epsie.samplers.dump_state /
+#          load_state, resp. the unbound BaseSampler method
+STYLES = ('kw', 'pos', 'min', 'allkw', 'mixed', 'alias')
+
+
+def _invoke(fn, lead, lead_names, opts, style):
+    """opts: [(name, value, default)] in signature order."""
+    if style == 'pos':
+        return fn(*lead, *[v for _, v, _ in opts])
+    if style == 'min':
+        return fn(*lead, **{k: v for k, v, d in opts if not (v is None if d is None else v == d)})
+    if style == 'allkw':
+        kw = dict(zip(lead_names, lead))
+        kw.update({k: v for k, v, _ in opts})
+        return fn(**kw)
+    if style == 'mixed':
+        return fn(*lead, opts[0][1], **{k: v for k, v, _ in opts[1:]})
+    return fn(*lead, **{k: v for k, v, _ in opts})
+
+
+def call_dump_pickle(stream, fp, path, name, style):
+    return _invoke(epsie.dump_pickle_to_hdf, [stream, fp], ['memfp', 'fp'],
+                   [('path', path, None), ('dsetname', name, DEFAULT_NAME)], style)
+
+
+def call_dump_state(obj, fp, path, name, protocol, style):
+    import epsie.samplers
+    fn = epsie.samplers.dump_state if style == 'alias' else epsie.dump_state
+    return _invoke(fn, [obj, fp], ['state', 'fp'],
+                   [('path', path, None), ('dsetname', name, DEFAULT_NAME), ('protocol', protocol, None)], style)
+
+
+def call_load_state(fp, path, name, style):
+    import epsie.samplers
+    fn = epsie.samplers.load_state if style == 'alias' else epsie.load_state
+    return _invoke(fn, [fp], ['fp'], [('path', path, None), ('dsetname', name, DEFAULT_NAME)], style)
+
+
+def call_checkpoint(sampler, fp, path, name, style):
+    from epsie.samplers.base import BaseSampler
+    opts = [('path', path, None), ('dsetname', name, DEFAULT_NAME)]
+    if style == 'alias':
+        return _invoke(BaseSampler.checkpoint, [sampler, fp], ['self', 'fp'], opts, 'kw')
+    return _invoke(sampler.checkpoint, [fp], ['fp'], opts, style)
+
+
+def call_restore(sampler, fp, path, style):
+    from epsie.samplers.base import BaseSampler
+    opts = [('path', path, None)]
+    if style == 'alias':
+        return _invoke(BaseSampler.set_state_from_checkpoint, [sampler, fp], ['self', 'fp'], opts, 'kw')
+    return _invoke(sampler.set_state_from_checkpoint, [fp], ['fp'], opts, style)
+
+
+# --------------------------------------------------------------------------
 # cases
 # --------------------------------------------------------------------------
 # A case is {'id':..., 'samplers': [[kind, family, seed], ...], 'ops': [...]} (JSON-able).
@@ -390,7 +616,13 @@ def build_sampler(kind, family, seed):
 #       ['run', sid, n]                                      samplers[sid].run(n)
 #       ['load', path, name]                                 epsie.load_state(fp, path, dsetname)
 #       ['restore', path, sid]                               twin of samplers[sid].set_state_from_checkpoint(fp, path)
-#       ['ls']
+#       ['ls']                                               the whole CURRENT file
+#       ['file', i]                                          the following ops address file object i (a second,
+#                                                            third ... h5py.File open in the same process)
+#       ['stream', path, name, streamdesc, style]            epsie.dump_pickle_to_hdf(<stream>, ...), see make_stream
+#       ['sread', bytesdesc, pos] / ['swrite', bytesdesc, pos, bytesdesc]
+#                                                            io.BytesIO and a real file against the model's Stream
+# 'state', 'ckpt', 'load' and 'restore' take an optional trailing call style (see STYLES; default 'kw').
 # path: None | 'a' | 'a/b' | '/a/b' | '/' ...;  name: str (names containing '/' only in search cases)
 
 PATHS = [None, None, 'a', 'a/b', '/a', '/', 'g2']
@@ -502,6 +734,242 @@ def exhaustive_cases(depth):
 
 
 # --------------------------------------------------------------------------
+# cases driving EVERY public entry point (not only dump_state): dump_pickle_to_hdf with streams in
+# every state a caller can have them in, all call styles, two files open at once
+# --------------------------------------------------------------------------
+
+ALT_SPELLING = {None: '/', '/': None, 'a': '/a', 'a/b': '/a/b/', '/a/b/': 'a/b', 'g2': '/g2'}
+ENTRY_PATHS = [None, 'a', 'a/b', '/a/b/', '/', 'g2']
+SMALL_PICKLE = 600
+TWO_FILES_SETUP = [['group', 'a/b'], ['group', 'g2'], ['file', 1], ['group', 'a/b'], ['group', 'g2'], ['file', 0]]
+
+
+def _labels_by_size(limit=None):
+    out = []
+    for label, obj in catalogue():
+        if limit is None or max(len(_ORIG['dumps'](obj, p)) for p in (0, 2, 4)) <= limit:
+            out.append(label)
+    return out
+
+
+def _payload_len(payload):
+    return len(payload_bytes(payload, dict(catalogue()))[0])
+
+
+def _same_length_payload(rng, n):
+    """Different bytes of the same length (zeros included)."""
+    return ['sparse0', rng.randrange(1 << 30), n] if n and rng.random() < 0.5 else ['rnd', rng.randrange(1 << 30), n]
+
+
+def gen_stream_desc(rng, labels, sizes, container=None, poskind=None, want_obj=None):
+    """A buildable stream descriptor, uniformly over what is legal."""
+    for _ in range(200):
+        c = container or rng.choice(STREAM_CONTAINERS)
+        pk = poskind or rng.choice(STREAM_POSITIONS)
+        is_obj = (rng.random() < 0.5) if want_obj is None else want_obj
+        if pk == 'loaded':
+            is_obj = True
+        fill = rng.choice(STREAM_FILLS[c])
+        payload = (['obj', rng.choice(labels), rng.choice(PROTOCOLS)] if is_obj
+                   else gen_bytes_desc(rng, sizes))
+        n = _payload_len(payload)
+        if stream_legal(c, fill, is_obj, n, pk):
+            return [c, fill, payload, [pk, rng.randrange(1 << 16)]]
+    raise RuntimeError('no legal stream for %r %r' % (container, poskind))
+
+
+def _prior_ops(rng, path, name, n, prior, labels):
+    """Ops that leave a checkpoint at (path, name) that is shorter / longer / as long as n bytes,
+    written through one of the OTHER entry points or stream kinds."""
+    if prior == 'absent':
+        return []
+    if prior == 'shorter' and n == 0:
+        prior = 'longer'
+    m = {'equal': n, 'shorter': rng.choice([0, n // 2, n - 1]), 'longer': n + rng.choice([1, 2, 64, 1000])}[prior]
+    bd = _same_length_payload(rng, m)
+    r = rng.random()
+    if r < 0.4:
+        return [['raw', path, name, bd]]
+    if r < 0.8:
+        c = rng.choice(STREAM_CONTAINERS)
+        pk = rng.choice(['asfilled', 'start', 'end', 'mid', 'read', 'beyond'])
+        fill = rng.choice([f for f in STREAM_FILLS[c] if f != 'pickle'])
+        if stream_legal(c, fill, False, m, pk):
+            return [['stream', path, name, [c, fill, bd, [pk, rng.randrange(1 << 16)]], rng.choice(STYLES[:5])]]
+        return [['raw', path, name, bd]]
+    # an object through dump_state first, then the exact length through a raw dump only if needed
+    return [['state', path, name, ['obj', rng.choice(labels)], rng.choice(PROTOCOLS), rng.choice(STYLES)],
+            ['raw', path, name, bd]]
+
+
+def stream_matrix_cases(seed, variant=0):
+    """For every kind of stream x every position kind x every prior state of the key (absent /
+    shorter / longer / equally long earlier checkpoint): one dump through dump_pickle_to_hdf and a
+    load; keys spread over nested paths, custom names and two files.  One case per container."""
+    rng = random.Random((seed << 12) ^ 0x57E4 ^ (variant * 0x9E3779))
+    labels = _labels_by_size(SMALL_PICKLE)
+    sizes = [0, 1, 2, 3, 17, 64, 65, 255, 300]
+    cases = []
+    for container in STREAM_CONTAINERS:
+        ops = [list(o) for o in TWO_FILES_SETUP]
+        combos = [(pk, pr) for pk in STREAM_POSITIONS for pr in ('absent', 'shorter', 'longer', 'equal')]
+        rng.shuffle(combos)
+        curfile = 0
+        for j, (pk, prior) in enumerate(combos):
+            if pk == 'loaded' and container.startswith('mini'):
+                continue
+            if pk == 'beyond' and container == 'mmap':
+                continue
+            sd = gen_stream_desc(rng, labels, sizes, container=container, poskind=pk,
+                                 want_obj=(True if pk == 'loaded' else (j % 2 == 0)))
+            n = _payload_len(sd[2])
+            path = ENTRY_PATHS[(j + rng.randrange(2)) % len(ENTRY_PATHS)]
+            name = DEFAULT_NAME if (prior != 'absent' and j % 3 == 0) else 'k%d' % j
+            want_file = (j // 2) % 2
+            if want_file != curfile:
+                ops.append(['file', want_file])
+                curfile = want_file
+            ops += _prior_ops(rng, path, name, n, prior, labels)
+            ops.append(['stream', path, name, sd, STYLES[j % 5]])
+            ops.append(['load', ALT_SPELLING[path] if j % 4 == 1 else path, name, STYLES[(j + 2) % 6]])
+        ops += [['file', 0], ['ls'], ['file', 1], ['ls']]
+        cases.append({'id': 'streams%d-%s' % (variant, container), 'samplers': [], 'ops': ops})
+    return cases
+
+
+def exhaustive_position_cases():
+    """EVERY position 0 .. len+2 of a 5-byte stream (zeros inside) and of a 1-byte and an empty one,
+    for in-memory, real-file, spooled and non-io streams, over every prior state of the key."""
+    cases = []
+    datas = ['8000050046', '00', '']
+    for container, fill in (('bytesio', 'init'), ('bytesio', 'write'), ('tmpfile', 'write'),
+                            ('spooled', 'write2'), ('mini', 'init'), ('rbfile', 'init')):
+        ops = [['group', 'a/b']]
+        j = 0
+        for hx in datas:
+            n = len(hx) // 2
+            for pos in range(n + 3):
+                for prior in ('absent', 'shorter', 'longer', 'equal'):
+                    if prior == 'shorter' and n == 0:
+                        continue
+                    name = 'p%d' % j
+                    j += 1
+                    if prior != 'absent':
+                        m = {'shorter': n - 1, 'longer': n + 2, 'equal': n}[prior]
+                        ops.append(['raw', 'a/b', name, ['hex', 'ff00' * (m // 2) + 'ff' * (m % 2)]])
+                    ops.append(['stream', 'a/b', name, [container, fill, ['hex', hx], ['mid' if pos <= n else 'beyond',
+                                                                                    pos if pos <= n else pos - n - 1]],
+                                'kw'])
+                    ops.append(['load', 'a/b', name])
+        ops.append(['ls'])
+        cases.append({'id': 'exhpos-%s-%s' % (container, fill), 'samplers': [], 'ops': ops})
+    return cases
+
+
+def stream_model_case():
+    """The model's Stream.read / Stream.write against io.BytesIO and a real file."""
+    ops = []
+    datas = ['', '07', '0102', '01000300', '0102030405']
+    for hx in datas:
+        n = len(hx) // 2
+        for pos in range(n + 3):
+            ops.append(['sread', ['hex', hx], pos])
+            for w in ('', '00', 'aabb', 'ccddeeff'):
+                ops.append(['swrite', ['hex', hx], pos, ['hex', w]])
+    return {'id': 'stream-model', 'samplers': [], 'ops': ops}
+
+
+def sampler_styles_case(sampler_specs):
+    """sampler.checkpoint / set_state_from_checkpoint in every call style, at the top level and in
+    a nested group, default and custom dataset names, in two files, with the samplers running on
+    between the checkpoints (so that consecutive checkpoints differ)."""
+    ops = [list(o) for o in TWO_FILES_SETUP]
+    ns = len(sampler_specs)
+    j = 0
+    for fi in (0, 1):
+        ops.append(['file', fi])
+        for path in (None, 'a/b', '/'):
+            for style in STYLES:
+                sid = j % ns
+                ops += [['run', sid, 1 + j % 2],
+                        ['ckpt', path, DEFAULT_NAME, sid, style],
+                        ['restore', ALT_SPELLING[path] if j % 3 == 0 else path, sid, STYLES[(j + 1) % 6]],
+                        ['ckpt', path, 'other-%d' % (j % 2), (sid + 1) % ns, STYLES[(j + 2) % 6]],
+                        ['load', path, 'other-%d' % (j % 2), STYLES[(j + 3) % 6]],
+                        ['restore', path, sid, STYLES[(j + 4) % 6]]]    # still the state checkpointed first
+                j += 1
+    ops += [['file', 0], ['ls'], ['file', 1], ['ls']]
+    return {'id': 'sampler-styles', 'samplers': [list(sp) for sp in sampler_specs], 'ops': ops}
+
+
+def gen_entry_case(rng, cid, sizes, nops, sampler_specs=(), labels=None, slashed=False):
+    """A random interleaving of ALL entry points — dump_pickle_to_hdf with every kind of stream,
+    dump_state, sampler.checkpoint, load_state, set_state_from_checkpoint, in every call style —
+    over a few (path, name) keys used in TWO files at once, with equal / growing / shrinking
+    sizes and identical bytes going to both files."""
+    labels = labels or _labels_by_size(SMALL_PICKLE)
+    ops = [list(o) for o in TWO_FILES_SETUP]
+    names = [DEFAULT_NAME, DEFAULT_NAME, 's2', 'x', 'ckpt-7'] + (['sub/y', 'a/b/x'] if slashed else [])
+    keys = [(rng.choice(ENTRY_PATHS), rng.choice(names)) for _ in range(rng.randint(2, 4))]
+    samplers = [list(sp) for sp in sampler_specs]
+    lastlen = {}                                    # (file, key) -> length of the last dump, if known
+    curfile = 0
+
+    def dump_ops(path, name, n_hint):
+        """One dump through a randomly chosen entry point; returns (ops, length or None)."""
+        r = rng.random()
+        if samplers and r < 0.25:
+            sid = rng.randrange(len(samplers))
+            out = []
+            if rng.random() < 0.6:
+                out.append(['run', sid, rng.choice([0, 1, 2])])
+            out.append(['ckpt', path, name, sid, rng.choice(STYLES)])
+            if name == DEFAULT_NAME and rng.random() < 0.7:
+                out.append(['restore', path, sid, rng.choice(STYLES)])
+            return out, None
+        if r < 0.35:
+            lab, proto = rng.choice(labels), rng.choice(PROTOCOLS)
+            return ([['state', path, name, ['obj', lab], proto, rng.choice(STYLES)]],
+                    _payload_len(['obj', lab, proto]))
+        if r < 0.45:
+            bd = _same_length_payload(rng, n_hint) if n_hint is not None else gen_bytes_desc(rng, sizes)
+            return [['raw', path, name, bd]], len(mk_bytes(bd))
+        sd = gen_stream_desc(rng, labels, sizes)
+        if n_hint is not None and sd[2][0] != 'obj' and stream_legal(sd[0], sd[1], False, n_hint, sd[3][0]):
+            sd[2] = _same_length_payload(rng, n_hint)
+        return [['stream', path, name, sd, rng.choice(STYLES[:5])]], _payload_len(sd[2])
+
+    for _ in range(nops):
+        if rng.random() < 0.3:
+            curfile = 1 - curfile
+            ops.append(['file', curfile])
+        path, name = rng.choice(keys)
+        r = rng.random()
+        if r < 0.75:
+            hint = lastlen.get((curfile, path, name)) if rng.random() < 0.4 else None
+            new, n = dump_ops(path, name, hint)
+            ops += new
+            lastlen[(curfile, path, name)] = n
+            if rng.random() < 0.2 and new[-1][0] in ('raw', 'state', 'stream'):
+                # the very same dump to the same (path, name) of the OTHER file
+                curfile = 1 - curfile
+                ops += [['file', curfile], copy.deepcopy(new[-1])]
+                lastlen[(curfile, path, name)] = n
+        elif r < 0.80:
+            sd = gen_stream_desc(rng, labels, sizes[:8])
+            ops.append(['stream', rng.choice(['nogroup', 'a/zz']), name, sd, rng.choice(STYLES[:5])])
+        else:
+            ops.append(['load', path, name, rng.choice(STYLES)])
+        if rng.random() < 0.5:
+            ops.append(['load', ALT_SPELLING.get(path, path) if rng.random() < 0.3 else path, name, rng.choice(STYLES)])
+        if rng.random() < 0.15:
+            curfile = 1 - curfile
+            ops += [['file', curfile], ['load', path, name, rng.choice(STYLES)]]
+    ops += [['file', 0], ['ls'], ['file', 1], ['ls']]
+    return {'id': cid, 'samplers': samplers, 'ops': ops}
+
+
+# --------------------------------------------------------------------------
 # executing a case on the real code
 # --------------------------------------------------------------------------
 
@@ -561,10 +1029,12 @@ def execute(case, res=None):
 
     Appends protocol/real lines (for the correspondence) and oracle findings (search)."""
     res = res or Result()
-    fp = h5stub.File()
+    files = {0: h5stub.File()}    # the file objects open in this process
+    cur = 0                       # the one the ops address
+    fp = files[cur]
     cat = dict(catalogue())
-    expected = {}                 # resolved location -> (bytes of the last dump, object or None, loadable)
-    foreign = {}                  # location -> maxlen of datasets not written by epsie
+    expected = {}                 # (file, resolved location) -> (bytes of the last dump, object or None, loadable)
+    foreign = {}                  # (file, location) -> maxlen of datasets not written by epsie
     samplers, twins = [], []
     for kind, fam, seed in case.get('samplers', []):
         samplers.append(build_sampler(kind, fam, seed))
@@ -579,21 +1049,41 @@ def execute(case, res=None):
             res.findings.append((key, text, pl))
 
     def check_frame(op, touched):
-        """Every key other than `touched` still stores the bytes of its last dump."""
-        _, dsets = fp.listing()
-        for loc, (b, _, _) in expected.items():
-            if loc == touched:
+        """Every key other than `touched` — in every open file — still stores the bytes of its last dump."""
+        touched = None if touched is None else (cur, touched)
+        listings = {i: f.listing()[1] for i, f in files.items()}
+        for fl, (b, _, _) in expected.items():
+            if fl == touched:
                 continue
-            have = dsets.get(loc, (None,))[0]
+            have = listings[fl[0]].get(fl[1], (None,))[0]
             if have != b:
-                finding('frame', 'a dump/load addressed to %r changed the stored bytes of %r: %d bytes expected '
-                        '(sha1 %s), found %s' % (touched, loc, len(b), hashlib.sha1(b).hexdigest()[:10],
-                                                 'nothing' if have is None else '%d bytes' % len(have)), op)
+                other = touched is not None and fl[0] != touched[0]
+                finding('frame-other-file' if other else 'frame',
+                        'a dump/load addressed to %r of file %d changed the stored bytes of %r of file %d: %d bytes '
+                        'expected (sha1 %s), found %s'
+                        % (touched and touched[1], cur, fl[1], fl[0], len(b), hashlib.sha1(b).hexdigest()[:10],
+                           'nothing' if have is None else '%d bytes' % len(have)), op)
+        # and nothing appeared that nobody dumped
+        for i, ds in listings.items():
+            for loc in ds:
+                if (i, loc) not in expected and (i, loc) != touched:
+                    finding('frame-new-dataset', 'a dump/load addressed to %r of file %d made a dataset %r appear in '
+                            'file %d' % (touched and touched[1], cur, loc, i), op)
+        if len(files) > 1:
+            res.count('frame_checks_other_files', sum(1 for fl in expected if fl[0] != cur))
         res.count('frame_checks', max(0, len(expected) - (1 if touched in expected else 0)))
 
     for op in case['ops']:
         kind = op[0]
-        if kind == 'group':
+        if kind == 'file':
+            cur = op[1]
+            if cur not in files:
+                files[cur] = h5stub.File()
+                res.count('files_opened')
+            fp = files[cur]
+            res.proto.append('file %d' % cur)
+            res.real.append('ok file')
+        elif kind == 'group':
             fp.require_group(op[1])
             res.proto.append('group %s' % op[1])
             res.real.append('ok group')
@@ -604,8 +1094,8 @@ def execute(case, res=None):
             d = grp.create_dataset(name, shape=(len(data),), maxshape=(mx,), dtype='S1')
             d[:] = numpy.frombuffer(data, dtype='S1')
             loc = loc_of(path, name)
-            expected[loc] = (data, None, False)
-            foreign[loc] = mx
+            expected[(cur, loc)] = (data, None, False)
+            foreign[(cur, loc)] = mx
             res.proto.append('foreign %s %s %s %s' % (ppath(path), name, hexs(data), 'none' if mx is None else mx))
             res.real.append('ok foreign')
         elif kind == 'run':
@@ -616,34 +1106,71 @@ def execute(case, res=None):
                 res.count('sampler_iterations', n)
             except Exception as e:      # defects of other properties are not C20's business
                 res.count('sampler_run_raised:' + type(e).__name__)
-        elif kind in ('raw', 'state', 'ckpt'):
+        elif kind in ('sread', 'swrite'):
+            # the model's Stream against the real io classes (BytesIO and a real file)
+            data, pos = mk_bytes(op[1]), op[2]
+            outs = []
+            for mk in (lambda: io.BytesIO(), lambda: tempfile.TemporaryFile('w+b')):
+                s = mk()
+                s.write(data)
+                s.seek(pos)
+                if kind == 'sread':
+                    got = s.read()
+                    outs.append('ok sread %s %d' % (hexs(got), s.tell()))
+                else:
+                    s.write(mk_bytes(op[3]))
+                    after = s.tell()
+                    s.seek(0)
+                    outs.append('ok swrite %s %d' % (hexs(s.read()), after))
+                s.close()
+            if kind == 'sread':
+                res.proto.append('sread %s %d' % (hexs(data), pos))
+            else:
+                res.proto.append('swrite %s %d %s' % (hexs(data), pos, hexs(mk_bytes(op[3]))))
+            res.real.append(outs[0] if outs[0] == outs[1] else 'BytesIO: %s / file: %s' % tuple(outs))
+            res.count('stream_model_lines')
+        elif kind in ('raw', 'state', 'ckpt', 'stream'):
             path, name = op[1], op[2]
             loc = loc_of(path, name)
+            fl = (cur, loc)
             obj, loadable, want, proto_used = None, True, None, None
+            stream, pos0, sdesc = None, 0, None
+            style = 'kw'
             if kind == 'ckpt':
+                style = op[4] if len(op) > 4 else 'kw'
                 try:                    # reading sampler.state is not C20's business
                     obj = copy.deepcopy(samplers[op[3]].state)
                     _ORIG['dumps'](obj)
                 except Exception as e:
                     res.count('sampler_state_unreadable:' + type(e).__name__)
                     continue
+            elif kind == 'state':
+                style = op[5] if len(op) > 5 else 'kw'
+            elif kind == 'stream':
+                sdesc, style = op[3], op[4]
+                stream, want, obj = make_stream(sdesc, cat)     # harness trouble here is not a finding
+                loadable = sdesc[2][0] == 'obj'
+                pos0 = stream.tell()
             TAP.reset()
-            fp.calls = []
+            for f_ in files.values():
+                f_.calls = []
             before = fp.listing()[1].get(loc)      # what the file really holds at the key
             try:
                 if kind == 'raw':
                     want = mk_bytes(op[3])
                     loadable = False
                     epsie.dump_pickle_to_hdf(io.BytesIO(want), fp, path=path, dsetname=name)
+                elif kind == 'stream':
+                    call_dump_pickle(stream, fp, path, name, style)
                 elif kind == 'state':
                     obj = cat[op[3][1]]
                     proto_used = op[4]
                     want = _ORIG['dumps'](obj, proto_used)
                     TAP.active = True
-                    epsie.dump_state(obj, fp, path=path, dsetname=name, protocol=proto_used)
+                    call_dump_state(obj, fp, path, name, proto_used, style)
                 else:
                     TAP.active = True
-                    samplers[op[3]].checkpoint(fp, path=path, dsetname=name)
+                    call_checkpoint(samplers[op[3]], fp, path, name, style)
                 exc = None
             except Exception as e:
                 exc = e
@@ -663,8 +1190,32 @@ def execute(case, res=None):
                 # code pickled are the oracle input
                 res.count('dump_bytes_differ_from_harness_pickle')
                 want = captured
+            if kind in ('state', 'ckpt') and captured is not None and TAP.dumped[0][3] is not None:
+                pos0 = TAP.dumped[0][3]          # where pickle.dump left the stream dump_state passes on
+            if kind == 'stream':
+                container, fill, _, (poskind, _k) = sdesc
+                try:
+                    pos1 = stream.tell()
+                    content = stream_content(stream, container, len(want))
+                    if content != want:
+                        if fill == 'pickle':     # pickle.dump to this kind of file vs pickle.dumps
+                            res.count('stream_pickle_dump_differs_from_dumps')
+                            want = content
+                        else:
+                            res.count('stream_content_changed_by_call')
+                    res.count('stream_left_at:' + ('end' if pos1 == len(want) else 'start' if pos1 == 0 else 'elsewhere'))
+                except Exception as e:
+                    res.count('stream_unreadable_after_call:' + type(e).__name__)
+                try:
+                    stream.close()
+                except Exception:
+                    pass
             calls = [c[0] for c in fp.calls]
             branch = 'create' if 'create' in calls else ('resize' if 'resize' in calls else 'keep')
+            for i_, f_ in files.items():
+                if i_ != cur and f_.calls:
+                    finding('other-file-touched', 'a dump to file %d made h5py calls on file %d: %r'
+                            % (cur, i_, f_.calls[:4]), op)
             _, dsets = fp.listing()
             stored = dsets.get(loc, (None,))[0]
             if want is None:                     # a checkpoint whose pickle we could not observe
@@ -672,10 +1223,20 @@ def execute(case, res=None):
             prior = ('absent' if before is None else
                      'shorter' if len(before[0]) < len(want) else
                      'longer' if len(before[0]) > len(want) else 'equal')
-            res.proto.append('dump %s %s %s' % (ppath(path), name, hexs(want)))
+            if pos0:
+                res.proto.append('dumps %s %s %s %d' % (ppath(path), name, hexs(want), pos0))
+            else:
+                res.proto.append('dump %s %s %s' % (ppath(path), name, hexs(want)))
             must_succeed = _group_exists(fp, path) and not _is_group(fp, loc) and \
-                (loc not in foreign or foreign[loc] is None or len(want) <= foreign[loc] or
+                (fl not in foreign or foreign[fl] is None or len(want) <= foreign[fl] or
                  (before is not None and len(before[0]) == len(want)))
+            where = ('at 0' if pos0 == 0 else 'at the end' if pos0 == len(want) else
+                     'inside' if pos0 < len(want) else 'beyond the end')
+            if kind == 'stream':
+                what = 'stream: %s filled by %s, positioned %s (%d of %d, %s), call style %s' % (
+                    sdesc[0], sdesc[1], where, pos0, len(want), sdesc[3][0], style)
+            else:
+                what = kind if style == 'kw' else '%s, call style %s' % (kind, style)
             if exc is None:
                 res.real.append('ok dump branch=%s' % branch)
                 res.count('dump_ok')
@@ -683,27 +1244,39 @@ def execute(case, res=None):
                 res.count('prior:' + prior)
                 res.count('kind:' + kind)
                 res.count('zeros:' + _zero_class(want))
+                res.count('style:%s:%s' % (kind, style))
+                if len(files) > 1:
+                    res.count('dump_with_several_files_open')
                 if kind == 'state':
                     res.count('protocol:%s' % (proto_used,))
+                if kind == 'stream':
+                    res.count('stream_container:' + sdesc[0])
+                    res.count('stream_fill:' + sdesc[1])
+                    res.count('stream_position:' + where)
+                    res.count('stream_poskind:' + sdesc[3][0])
+                    res.count('stream_prior:%s:%s' % (where, prior))
+                    res.stats.setdefault('_stream_combos', set()).add((sdesc[0], sdesc[1], where, prior))
+                elif kind in ('state', 'ckpt'):
+                    res.count('dump_state_stream_position:' + where)
                 res.stats.setdefault('_distinct', set()).add(
-                    (hashlib.sha1(want).hexdigest(), prior, loc))
+                    (hashlib.sha1(want).hexdigest(), prior, fl))
                 if prior != 'absent' or 0 in want:
                     res.stats.setdefault('_nontrivial', set()).add(
-                        (hashlib.sha1(want).hexdigest(), prior, loc))
+                        (hashlib.sha1(want).hexdigest(), prior, fl))
                 if stored != want:
                     finding('roundtrip-bytes:' + prior,
                             'after a dump of %d bytes (%s, %s) to %r over a key that was %s the dataset holds %s'
-                            % (len(want), kind, _zero_class(want), loc, prior,
+                            % (len(want), what, _zero_class(want), loc, prior,
                                'nothing' if stored is None else
                                '%d bytes, first difference at offset %s' % (len(stored), _first_diff(stored, want))), op,
                             {'expected_sha1': hashlib.sha1(want).hexdigest()})
                     # go on with what the file holds, so that one defect is reported once
                     if stored is not None:
-                        expected[loc] = (stored, None, False)
+                        expected[fl] = (stored, None, False)
                     else:
-                        expected.pop(loc, None)
+                        expected.pop(fl, None)
                 else:
-                    expected[loc] = (want, obj, loadable)
+                    expected[fl] = (want, obj, loadable)
                 check_frame(op, loc)
             else:
                 res.real.append('raise %s' % type(exc).__name__)
@@ -711,21 +1284,23 @@ def execute(case, res=None):
                 if must_succeed:
                     finding('dump-raises:' + prior,
                             'a dump of %d bytes (%s) to %r (key %s, group exists) raised %s: %s'
-                            % (len(want), kind, loc, prior, type(exc).__name__, str(exc)[:200]), op,
+                            % (len(want), what, loc, prior, type(exc).__name__, str(exc)[:200]), op,
                             {'traceback': ''.join(traceback.format_exception(type(exc), exc, exc.__traceback__))[-1500:]})
                     # the oracle continues with what the file now holds
                     if stored is not None:
-                        expected[loc] = (stored, None, False)
+                        expected[fl] = (stored, None, False)
                 check_frame(op, loc if must_succeed else None)
         elif kind == 'load':
             path, name = op[1], op[2]
+            style = op[3] if len(op) > 3 else 'kw'
             loc = loc_of(path, name)
+            fl = (cur, loc)
             TAP.reset()
             TAP.active = True
-            TAP.no_unpickle = loc in expected and not expected[loc][2]
+            TAP.no_unpickle = fl in expected and not expected[fl][2]
             got, exc = None, None
             try:
-                got = epsie.load_state(fp, path=path, dsetname=name)
+                got = call_load_state(fp, path, name, style)
             except Exception as e:
                 exc = e
             finally:
@@ -734,7 +1309,8 @@ def execute(case, res=None):
             _gap(exc)
             read = TAP.loaded[0] if TAP.loaded else None
             res.proto.append('load %s %s' % (ppath(path), name))
-            exp = expected.get(loc)
+            res.count('style:load:' + style)
+            exp = expected.get(fl)
             # the model's `load` is load_state up to pickle.load: once pickle.load was reached the
             # h5py part succeeded, whatever pickle then makes of the bytes
             if read is not None:
@@ -765,9 +1341,10 @@ def execute(case, res=None):
                             % (loc, type(exc).__name__, str(exc)[:200]), op)
             check_frame(op, None)
         elif kind == 'restore':
-            _, path, sid = op
+            path, sid = op[1], op[2]
+            style = op[3] if len(op) > 3 else 'kw'
             loc = loc_of(path, DEFAULT_NAME)
-            exp = expected.get(loc)
+            exp = expected.get((cur, loc))
             if twins[sid] is None:
                 k_, f_, s_ = case['samplers'][sid]
                 twins[sid] = build_sampler(k_, f_, s_)
@@ -784,7 +1361,7 @@ def execute(case, res=None):
             TAP.active = True
             TAP.no_unpickle = exp is not None and not exp[2]
             try:
-                tw.set_state_from_checkpoint(fp, path=path)
+                call_restore(tw, fp, path, style)
             except Exception as e:
                 exc = e
             finally:
@@ -794,6 +1371,7 @@ def execute(case, res=None):
             _gap(exc)
             read = TAP.loaded[0] if TAP.loaded else None
             res.proto.append('load %s %s' % (ppath(path), DEFAULT_NAME))
+            res.count('style:restore:' + style)
             if read is not None:
                 res.real.append('ok load %s' % hexs(read))
                 res.count('restore_bytes_seen')
@@ -985,6 +1563,29 @@ def search(chk, level, agg):
                 findings.append(f)
         if time.time() - t0 > (25 if level == 'light' else 420):
             break
+    # every entry point, every kind of stream, two files, all catalogue objects, big payloads
+    t0 = time.time()
+    all_labels = _labels_by_size(None)
+    for i in range(25 if level == 'light' else 300):
+        specs = [all_specs[(i * 2 + j) % len(all_specs)] for j in range(2)] if all_specs and i % 2 == 0 else []
+        sz = sizes + (HUGE_SIZES[:1] if level == 'full' and i % 50 == 0 else [])
+        c = gen_entry_case(rng, 'search-entry-%d' % i, sz, rng.randint(6, 16 if level == 'light' else 40), specs,
+                           labels=all_labels, slashed=(i % 3 == 0))
+        try:
+            r = execute(c)
+        except Exception as e:
+            errs.append({'case': c, 'exception': repr(e), 'traceback': traceback.format_exc()[-1500:]})
+            if len(errs) > 5:
+                break
+            continue
+        merge(r.stats, agg)
+        agg['search_cases'] = agg.get('search_cases', 0) + 1
+        agg['search_entry_cases'] = agg.get('search_entry_cases', 0) + 1
+        for f in r.findings:
+            if not any(k == f[0] for k, _, _ in findings):
+                findings.append(f)
+        if time.time() - t0 > (10 if level == 'light' else 240):
+            break
     return findings, errs
 
 
@@ -994,6 +1595,35 @@ def minimise(finding):
     case = payload['case']
     ops = list(case['ops'])
     budget = 150
+
+    def still(trial_ops):
+        try:
+            r = execute(dict(case, ops=trial_ops))
+        except Exception:
+            return None
+        hit = [f for f in r.findings if f[0] == key]
+        return hit[0] if hit else None
+
+    # nothing after the failing op is needed; then drop chunks of halving size (long generated cases)
+    if payload.get('op') in ops:
+        cut = ops[:ops.index(payload['op']) + 1]
+        hit = still(cut)
+        budget -= 1
+        if hit:
+            ops, text, payload = cut, hit[1], hit[2]
+    size = len(ops) // 2
+    while size >= 2 and budget > 0:
+        i = 0
+        while i < len(ops) and budget > 0:
+            trial = ops[:i] + ops[i + size:]
+            budget -= 1
+            hit = still(trial)
+            if hit:
+                ops, text, payload = trial, hit[1], hit[2]
+            else:
+                i += size
+        size //= 2
+    budget = max(budget, 60)
     changed = True
     while changed and budget > 0:
         changed = False
@@ -1022,6 +1652,10 @@ def run(chk, tier, proof_ok):
     agg = {}
     # ---- correspondence
     cases = list(fixed_cases()) + exhaustive_cases(3 if quick else 4)
+    # every public entry point: dump_pickle_to_hdf with streams in every position, all call styles, two files
+    cases += [stream_model_case()] + exhaustive_position_cases()
+    for v in range(1 if quick else 8):
+        cases += stream_matrix_cases(chk.seed, v)
     probe = Result()
     nspec = 12 if quick else 48
     specs = usable_specs(sampler_specs(rng, nspec, 1 + chk.seed * 97), probe)
@@ -1032,6 +1666,14 @@ def run(chk, tier, proof_ok):
         sp = [specs[(i + j) % len(specs)] for j in range(2)] if specs and i % 2 == 0 else []
         big = (not quick) and i % 25 == 0
         cases.append(gen_case(rng, 'ckpt-%d' % i, sizes if big else SIZES[:30], rng.randint(4, 14 if quick else 24), sp))
+    if specs:
+        cases.append(sampler_styles_case([specs[0], specs[len(specs) // 2]]))
+    rng2 = random.Random((chk.seed << 9) ^ 0xE27)
+    for i in range(50 if quick else 500):
+        sp = [specs[(i + j) % len(specs)] for j in range(2)] if specs and i % 2 == 0 else []
+        big = (not quick) and i % 25 == 0
+        cases.append(gen_entry_case(rng2, 'entry-%d' % i, sizes if big else SIZES[:24],
+                                    rng2.randint(6, 16 if quick else 30), sp))
     results, errs = [], []
     kept = []
     for c in cases:
@@ -1069,25 +1711,60 @@ def run(chk, tier, proof_ok):
     # ---- coverage
     distinct = agg.pop('_distinct', set())
     nontrivial = agg.pop('_nontrivial', set())
+    combos = agg.pop('_stream_combos', set())
     cov = chk.coverage
     evals = sum(v for k, v in agg.items() if k in ('dump_ok', 'load_bytes_seen', 'load_bytes_unseen',
                                                    'restores_equal') or k.startswith(('dump_raised', 'load_raised')))
     cov['evaluations'] = evals
     cov['distinct_nontrivial'] = len(nontrivial)
-    cov['rule'] = ('evaluations = dump/load/restore calls executed on the real epsie code against the stand-in; '
+    cov['rule'] = ('evaluations = dump/load/restore calls executed on the real epsie code against the stand-in, through '
+                   'every public entry point (dump_pickle_to_hdf with streams of every kind and position, dump_state, '
+                   'checkpoint, load_state, set_state_from_checkpoint; see entry_points); '
                    'distinct = distinct (sha1 of dumped bytes, state of the key before: absent/shorter/longer/equal, '
-                   'resolved key) among successful dumps (%d); non-trivial = the dump overwrote an existing dataset '
-                   'or its bytes contain a zero byte' % len(distinct))
+                   'file and resolved key) among successful dumps (%d); non-trivial = the dump overwrote an existing '
+                   'dataset or its bytes contain a zero byte' % len(distinct))
     cov['correspondence'] = {'checkpoint': {
         'cases': len(cases), 'protocol_lines': nproto, 'divergences': len(divs), 'harness_errors': len(errs),
         'sampler_configurations': len(specs)}}
     cov['branches'] = {k: v for k, v in sorted(agg.items())}
+    # every public entry point x the states a caller can have its arguments in (measured)
+    def _hist(prefix):
+        return {k[len(prefix):]: v for k, v in sorted(agg.items()) if k.startswith(prefix)}
+    wheres = ('at 0', 'inside', 'at the end', 'beyond the end')
+    priors = ('absent', 'shorter', 'longer', 'equal')
+    cov['entry_points'] = {
+        'epsie.dump_pickle_to_hdf': {
+            'calls_with_BytesIO_at_0': agg.get('style:raw:kw', 0),
+            'calls_with_other_streams': agg.get('kind:stream', 0),
+            'call_styles': _hist('style:stream:'),
+            'stream_containers': _hist('stream_container:'),
+            'stream_filled_by': _hist('stream_fill:'),
+            'stream_position_at_the_call': _hist('stream_position:'),
+            'how_positioned': _hist('stream_poskind:'),
+            'position_x_prior_state_of_the_key': _hist('stream_prior:'),
+            'position_x_prior_cells_hit': '%d/16' % sum(1 for w in wheres for p in priors
+                                                      if agg.get('stream_prior:%s:%s' % (w, p), 0)),
+            'distinct_container_fill_position_prior': len(combos),
+            'container_x_position_cells_hit': '%d of %d' % (
+                len({(c, w) for c, _, w, _ in combos}), len(STREAM_CONTAINERS) * 4 - 1),
+            'stream_left_at': _hist('stream_left_at:'),
+            'model_Stream_read_write_lines_vs_io': agg.get('stream_model_lines', 0)},
+        'epsie.dump_state (also as epsie.samplers.dump_state)': {
+            'calls': agg.get('kind:state', 0), 'call_styles': _hist('style:state:'),
+            'position_of_its_stream_at_dump_pickle_to_hdf': _hist('dump_state_stream_position:')},
+        'sampler.checkpoint': {'calls': agg.get('kind:ckpt', 0), 'call_styles': _hist('style:ckpt:')},
+        'epsie.load_state (also as epsie.samplers.load_state)': {'call_styles': _hist('style:load:')},
+        'sampler.set_state_from_checkpoint': {'call_styles': _hist('style:restore:')},
+        'two_files_open': {'dumps': agg.get('dump_with_several_files_open', 0),
+                           'frame_checks_on_the_other_file': agg.get('frame_checks_other_files', 0)}}
     cov['search'] = {'level': 'full' if full else 'light', 'cases': agg.get('search_cases', 0),
                      'oracle': 'stored bytes of every key == bytes of the last dump to it (pickle.dumps(state, protocol) '
                                'computed by the harness); bytes handed to pickle.load == those bytes; loaded object '
                                'deep-equal (dtype/shape/bytes for arrays, NaN-aware); state passed to set_state by '
                                'set_state_from_checkpoint deep-equal to the checkpointed sampler.state; all other keys '
-                               'unchanged after every call'}
+                               'of all open files unchanged after every call, no dataset appears that was not dumped, no '
+                               'h5py call on a file other than the one passed; for dump_pickle_to_hdf the dumped bytes '
+                               'are ALL bytes the stream holds, wherever it is positioned'}
     if _CAT_DROPPED:
         chk.notes.append('catalogue objects dropped because pickle alone does not round-trip them: %s' % _CAT_DROPPED)
     chk.assumptions.append('harness/h5stub.py behaves like h5py/HDF5 for the calls used by epsie (group lookup, membership, '
